@@ -46,7 +46,7 @@ func applyModel(root *dm.Node, t dm.Tree, op histOp) bool {
 			return false
 		}
 		return dm.MergeContent(root, t, op.Src, dm.Upsert, false, "") == nil
-	case "hold":
+	case "hold", "read-held":
 		_, _, ok := dm.Resolve(root, t, op.Path)
 		return ok
 	case "delete", "delete-held":
@@ -206,6 +206,34 @@ func applyLib(mm *meta.Module, root *dm.Node, store dm.Store, model dm.Tree, op 
 		t := held.sel
 		held.sel = nil
 		return t.Delete()
+	case "read-held":
+		// the list read through the selection that was taken before it changed: what it holds now
+		if held.sel == nil || held.path != findPath(op.Path) {
+			return fmt.Errorf("harness: no selection held for %s", findPath(op.Path))
+		}
+		ln, lv, _ := dm.Resolve(root, model, op.Path)
+		wantRows, _ := lv.([]interface{})
+		var gotKeys []string
+		li, err := held.sel.First()
+		for steps := 0; err == nil && li.Selection != nil && steps < 1000; steps++ {
+			var ks []string
+			for _, k := range li.Key {
+				if k == nil {
+					ks = append(ks, "<nil>")
+				} else {
+					ks = append(ks, k.String())
+				}
+			}
+			gotKeys = append(gotKeys, strings.Join(ks, ","))
+			li, err = li.Next()
+		}
+		if err != nil {
+			return err
+		}
+		if len(gotKeys) != len(wantRows) {
+			return fmt.Errorf("read through the kept selection of %s shows %d entries %v, the list holds %d (%s keys)", findPath(op.Path), len(gotKeys), gotKeys, len(wantRows), ln.Name)
+		}
+		return nil
 	case "upsert-held":
 		// entries written through a selection of the list that was taken before the list changed
 		if held.sel == nil || held.path != findPath(op.Path) {
@@ -335,7 +363,7 @@ func histRun(prop string) func(c histCase, o *hx.Obs) {
 		held := &histHeld{}
 		for i, op := range c.Ops {
 			before := dm.CloneTree(model)
-			if (op.Kind == "delete-held" || op.Kind == "upsert-held") && (held.sel == nil || held.path != findPath(op.Path)) {
+			if (op.Kind == "delete-held" || op.Kind == "upsert-held" || op.Kind == "read-held") && (held.sel == nil || held.path != findPath(op.Path)) {
 				continue // its hold step was skipped
 			}
 			if !applyModel(root, model, op) {
@@ -349,7 +377,7 @@ func histRun(prop string) func(c histCase, o *hx.Obs) {
 			if op.Kind == "upsert-held" {
 				usedHeld = true
 			}
-			if held.sel != nil && op.Kind != "hold" && op.Kind != "delete-held" && op.Kind != "upsert-held" {
+			if held.sel != nil && op.Kind != "hold" && op.Kind != "delete-held" && op.Kind != "upsert-held" && op.Kind != "read-held" {
 				if _, _, still := dm.Resolve(root, model, held.at); !still || unseats(op, held.at) {
 					held.sel = nil // the node the kept selection stands for was removed or made anew
 				}
@@ -637,6 +665,10 @@ func histGen(prop string, stores []string) func(t *rapid.T) histCase {
 					return src
 				}
 				ops := []histOp{{Kind: "hold", Path: listPath}}
+				if rapid.Bool().Draw(t, "read-first") {
+					// (the kept selection reads the list once before it changes)
+					ops = append(ops, histOp{Kind: "read-held", Path: listPath})
+				}
 				var through []interface{}
 				nAdd := rapid.IntRange(0, 2).Draw(t, "added-meanwhile")
 				for i := 0; i < nAdd && i < len(fresh); i++ {
@@ -659,6 +691,9 @@ func histGen(prop string, stores []string) func(t *rapid.T) histCase {
 				}
 				if len(fresh) > nAdd && rapid.Bool().Draw(t, "new-through-held") {
 					through = append(through, dm.Clone(fresh[len(fresh)-1]))
+				}
+				if len(ops) > 1 && rapid.Bool().Draw(t, "read-again") {
+					ops = append(ops, histOp{Kind: "read-held", Path: listPath})
 				}
 				if len(through) > 0 {
 					ops = append(ops, histOp{Kind: "upsert-held", Path: listPath, Src: dm.Tree{ln.Name: through}})
@@ -846,4 +881,5 @@ func TestC18(t *testing.T) {
 	s := hx.Begin(t, "C18")
 	defer s.End()
 	hx.Run(s, c18Hist, s.N(2500, 25000))
+	hx.Run(s, c18Acc, s.N(1000, 10000))
 }
